@@ -132,9 +132,13 @@ class DB:
         self.read_utxo_state()
 
         # Then history DB
+        utxo_flush_count = self.state.flush_count
         self.state.flush_count = self.history.open_db(self.db_class, for_sync,
-                                                      self.state.flush_count,
-                                                      compacting)
+                                                      utxo_flush_count, compacting)
+        if self.state.flush_count < utxo_flush_count:
+            # A history compaction completed but died before telling the UTXO DB.  Do so
+            # now, otherwise history flushed from here on is not recognised as excess.
+            self.write_utxo_state(self.utxo_db)
         self.clear_excess_undo_info()
 
         # Read TX counts (requires meta directory)
